@@ -596,3 +596,124 @@ def for_class_rule(ctx, rep: Report, rule: str, aspects=("dnc", "attrs", "mro"))
     rep.oblige(rule, "SpecClassMetadata.for_class", not bad, "; ".join(sorted(set(bad))[:2]))
     for b in sorted(set(bad))[:3]:
         rep.violate(Violation(rule, f"{rule}|for_class|{b[:50]}", f"SpecClassMetadata.for_class: {b}", f"{fi.module.relpath}:{fi.node.lineno}", "SpecClassMetadata.for_class"))
+
+
+# -------------------------------------------------------------------------------------------------
+def preparer_always(ctx, rep: Report, rule: str):
+    """prepare_attr_value interpreted (value possibly None / falsy): whenever the attribute has a preparer and the value
+    is not one of the argument markers, the preparer is called on every normal path - None and other falsy values are
+    values like any other (constructor keywords, defaults and getter results all pass through here)."""
+    rep.rules[rule] = "prepare_attr_value: the preparer is applied to every non-marker value (None included)"
+    fi = ctx.p.find_function("prepare_attr_value")
+
+    def conf(cfg):
+        cfg.user_may_raise = False
+        cfg.loop_unroll = 1
+        cfg.record_decisions = True
+        cfg.stubs.pop("prepare_attr_value", None)
+        cfg.stubs.pop("mutate_value", None)
+    params = [a.arg for a in fi.node.args.args]
+    if params[:3] != ["attr_spec", "instance", "value"]:
+        raise AnalysisError(f"{rule}: unexpected signature of prepare_attr_value {params}")
+    it, outs = run_function(ctx.p, ctx.H, fi, [Sym(("attr_spec",), {CLS}), Sym(("self",), {RECV}, tags={"nonsentinel", "specinst"}), Sym(("value",), {ARG})],
+                            {"attrs": Const(None)}, configure=conf, extra_facts={("truthy", ("attr_spec", ".is_collection")): False})
+    rep.functions |= set(it.functions_entered)
+    rep.evaluations += len(outs)
+    bad = []
+    n = 0
+    for o in outs:
+        if o.kind != "ok":
+            continue
+        d = dict(o.state.decisions)
+        hasprep = d.get(("truthy", ("attr_spec", ".prepare")))
+        if hasprep is False:
+            continue
+        markers = [v for k, v in d.items() if k[0] == "is" and k[1] == ("value",) and str(k[2]).startswith("('S'")]
+        if any(markers):
+            continue
+        n += 1
+        called = any(e[0] == "U" and str(e[1]).endswith("/.prepare") for e in o.state.trace)
+        if hasprep is None:
+            bad.append("a value is returned on a path that never asks whether the attribute has a preparer")
+        elif not called:
+            conds = [f"{k[0]}({'/'.join(map(str, k[1])) if isinstance(k[1], tuple) else k[1]})={v}" for k, v in d.items() if "value" in repr(k[1])][:3]
+            bad.append(f"a value reaches the attribute unprepared although a preparer is registered (path conditions: {', '.join(conds)})")
+    if n < 2:
+        raise AnalysisError(f"{rule}: only {n} paths with a preparer and a real value (floor 2)")
+    rep.oblige(rule, "prepare_attr_value", not bad, "; ".join(sorted(set(bad))[:2]))
+    for b in sorted(set(bad))[:2]:
+        rep.violate(Violation(rule, f"{rule}|{b[:70]}", f"prepare_attr_value / mutate_value: {b}", f"{fi.module.relpath}:{fi.node.lineno}", "prepare_attr_value"))
+
+
+def options_verbatim(ctx, rep: Report, rule: str, options=("key", "frozen", "init_overflow_attr")):
+    """spec_class.__init__ stores the inheritable options exactly as given: bootstrap distinguishes 'not given'
+    (MISSING: inherit) from an explicit None / False (switch off), so no truthiness normalisation may sit in between."""
+    rep.rules[rule] = "inheritable decorator options are stored verbatim on every path of spec_class.__init__"
+    init = ctx.p.find_function("spec_class.__init__")
+    names = [a.arg for a in init.node.args.args[1:]] + [a.arg for a in init.node.args.kwonlyargs]
+
+    def conf(cfg):
+        cfg.user_may_raise = False
+        cfg.loop_unroll = 1
+    it, outs = run_function(ctx.p, ctx.H, init, [Sym(("self",), {FRESH})], {n: Sym((n,), {ARG}) for n in names}, configure=conf)
+    rep.functions |= set(it.functions_entered)
+    rep.evaluations += len(outs)
+    bad = {}
+    seen = set()
+    for o in outs:
+        for e in o.state.trace:
+            if e[0] == "W" and e[2] == "self" and e[4] in options:
+                seen.add(e[4])
+                if str(e[5]) != e[4]:
+                    bad[e[4]] = (str(e[5]), e[-1])
+    missing = [o_ for o_ in options if o_ not in seen and o_ in names]
+    if missing:
+        raise AnalysisError(f"{rule}: spec_class.__init__ does not store {missing}")
+    rep.oblige(rule, "spec_class.__init__", not bad, str(bad))
+    for opt, (val, site) in sorted(bad.items()):
+        fn, stmt = ctx.p.stmt_at(site)
+        rep.violate(Violation(rule, f"{rule}|{opt}", f"spec_class.__init__ stores `{val}` for the option `{opt}` on some path (`{stmt}`) instead of the value given: an explicit None / False can no longer be told from 'not given', so the parent's setting is inherited against the caller's wish",
+                              site, "spec_class.__init__"))
+
+
+def field_conversion(ctx, rep: Report, rule: str):
+    """Attr.from_attr_value translates a dataclasses.Field option by option: each `<opt>=<field>.<opt>` pair names the same option."""
+    rep.rules[rule] = "dataclasses.Field -> Attr conversion copies each option from the option of the same name"
+    fi = ctx.p.find_function("Attr.from_attr_value")
+    from .base import with_callees
+    n = 0
+    bad = []
+    for g in with_callees(ctx.p, fi, 1):
+        if g is not fi and g.cls is not fi.cls:
+            continue
+        for c in ast.walk(g.node):
+            if isinstance(c, ast.Call) and ast.unparse(c.func) in ("Attr", "cls"):
+                for k in c.keywords:
+                    if k.arg and isinstance(k.value, ast.Attribute) and isinstance(k.value.value, ast.Name) and k.value.value.id in ("value", "field"):
+                        n += 1
+                        if k.value.attr != k.arg:
+                            bad.append((c, f"`{k.arg}={ast.unparse(k.value)}`"))
+    if n < 3:
+        raise AnalysisError(f"{rule}: only {n} option copies found in the Field conversion (floor 3)")
+    rep.oblige(rule, "Attr.from_attr_value[Field]", not bad, "; ".join(b for _, b in bad))
+    for node, b in bad[:2]:
+        rep.violate(Violation(rule, f"{rule}|{b}", f"Attr.from_attr_value: {b} copies a different option of the dataclasses.Field: a field declared with different repr/compare/init flags gets them swapped",
+                              f"{fi.module.relpath}:{node.lineno}", "Attr.from_attr_value"))
+
+
+def invalidated_by_source(ctx, rep: Report, rule: str):
+    """build_attr_spec takes the dependencies of a property default from its normalised `__spec_class_invalidated_by__`
+    (a bare string is one attribute name, not a sequence of characters)."""
+    rep.rules[rule] = "Attr.invalidated_by is filled from the descriptor's normalised __spec_class_invalidated_by__"
+    fi = ctx.p.find_function("spec_class.build_attr_spec")
+    from .base import with_callees
+    asg = [n for g in with_callees(ctx.p, fi, 1) if g is fi or g.cls is fi.cls for n in walk_own(g.node)
+           if isinstance(n, ast.Assign) and len(n.targets) == 1 and isinstance(n.targets[0], ast.Attribute) and n.targets[0].attr == "invalidated_by"]
+    if not asg:
+        raise AnalysisError(f"{rule}: build_attr_spec no longer assigns invalidated_by")
+    bad = [n for n in asg if isinstance(n.value, ast.Attribute) and n.value.attr != "__spec_class_invalidated_by__"
+           and "default" in ast.unparse(n.value)]
+    rep.oblige(rule, "spec_class.build_attr_spec", not bad)
+    for n in bad[:1]:
+        rep.violate(Violation(rule, f"{rule}|{ast.unparse(n.value)[-40:]}", f"spec_class.build_attr_spec: `{ast.unparse(n)}` reads the raw declaration instead of `__spec_class_invalidated_by__`: `invalidated_by=\"width\"` is iterated character by character and the property is never invalidated",
+                              f"{fi.module.relpath}:{n.lineno}", "spec_class.build_attr_spec"))
